@@ -1,7 +1,7 @@
 (* Entry points for the extracted OCaml driver. *)
 From MLPE Require Export Engine.Run Spec.Fragments.
 From MLPE Require Pure.FsStore Pure.Validate Pure.Viewer.
-From MLPE Require Import Explore.StateEq Explore.Erase Explore.Explorer Explore.Paths.
+From MLPE Require Import Explore.StateEq Explore.Erase Explore.Explorer Explore.Paths Explore.Safe.
 
 Record result := {
   r_main : option (tstate frame);
@@ -66,3 +66,20 @@ Definition viewer_case (ds : decls) (infos : list Viewer.ninfo) : Viewer.vconfig
 (* every transition of the explored, history-free state graph of one program, each as an action list from the initial state *)
 Definition paths_case (P : prog) (wc : bool) : option (list (list action)) :=
   explore_paths P wc (Nat.mul 2000 1000) [(erase (init_state), [])] [] [].
+
+(* model checking of one program by the extracted explorer (evidence for generated programs; the theorems use vm_compute on
+   the catalogue): number of states explored and, per safety predicate, an action list to a violating state if there is one *)
+Definition safety_by_name (P : prog) (wc : bool) (k : nat) : mstate -> bool :=
+  match k with
+  | 0 => safe_live
+  | 1 => safe_outcome P wc
+  | 2 => safe_counts P
+  | 3 => safe_kwargs P
+  | 4 => safe_saves
+  | 5 => safe_events P
+  | 6 => safe_quiesce P quiesce_bound
+  | _ => safe_c06 P
+  end.
+
+Definition modelcheck_case (P : prog) (wc : bool) (k : nat) (limit : nat) : option (nat * option (list action)) :=
+  find_unsafe P wc (safety_by_name P wc k) limit [(erase (init_state), [])] [] 0.
